@@ -22,6 +22,8 @@ def obligations(tier):
            exhaustive=True, bounds="3 language orders x requested language absent/en/fr/de/unknown x 3 writers"),
         ch("lang_options_prefix", "harness.C14_langs", timeout=T, functions=("WebVTTWriter.write(lang=)", "DFXPWriter.write(force=)", "LegacyDFXPWriter.write(force=)", "_force_language"), exhaustive=True,
            bounds="languages fr, fr-CA, de in 3 orders x option absent / each code / a fragment that is no code ('f-') x 3 writers"),
+        ch("sami_prefix_roundtrip", "harness.C14_langs", timeout=T, functions=("SAMIWriter.write", "_recreate_stylesheet", "SAMIParser.handle_starttag/_find_lang", "SAMIReader.read/_translate_lang"), exhaustive=True,
+           bounds="languages fr and fr-CA (both orders, optionally a third language), two cues each: SAMI write (stub soup) then real SAMIParser + SAMIReader (html.parser): every language keeps exactly its own cues"),
         ch("sami_find_lang", "harness.C14_langs", timeout=T, functions=("SAMIParser._find_lang",), exhaustive=True,
            bounds="0-3 attributes out of lang / known class / unknown class / id / upper-case LANG in every order"),
     ]
